@@ -37,6 +37,11 @@ REQUESTS = [
     ('fault_server', 'fail', [('code', 'Server.Custom'), ('msg', 'm2')]),
     ('exc', 'boom', [('token', 'TOK')]),
     ('gen_exc', 'gboom', [('token', 'TOK')]),          # a generator function that raises before its first yield
+    ('gen_late_exc', 'gboom_late', [('token', 'TOK')]),    # ... and one that raises after it
+    ('stream', 'stream', [('n', 4), ('fail_after', 9), ('how', '')]),
+    ('stream_fault', 'stream', [('n', 4), ('fail_after', 2), ('how', 'fault')]),
+    ('stream_exc', 'stream', [('n', 4), ('fail_after', 1), ('how', 'exc')]),
+    ('stream_exc0', 'stream', [('n', 4), ('fail_after', 0), ('how', 'exc')]),
     ('ded_toolong', 'dedicated', [('which', 'toolong')]),
     ('ded_notfound', 'dedicated', [('which', 'notfound')]),
     ('ded_notallowed', 'dedicated', [('which', 'notallowed')]),
@@ -75,6 +80,9 @@ def cl_classes(blen, maxlen):
     c.append(('larger_than_body', str(blen + 10)))
     c.append(('larger_than_limit', str(maxlen + 1)))
     c.append(('at_limit', str(maxlen)))
+    # what a client can put in the header and a gateway passes on unread
+    c += [('not_a_number', 'abc'), ('negative', '-5'), ('too_many_digits', '9' * 5000), ('padded', ' %d ' % blen),
+          ('fraction', '%d.0' % blen)]
     return c
 
 
@@ -107,7 +115,13 @@ def judge(res, case, r, rec, maxlen, declared, blen, full_chunks, R):
     def v(mech, what):
         viol.append((mech, what))
 
-    if r.exc is not None:
+    # a body that is streamed while user code is still producing it can fail after the status line has gone out: raising
+    # out of the iteration, which makes the server drop the connection, is then the one way left to say so
+    midstream = (r.exc is not None and r.exc_stage == 'iterate' and len(r.sr_calls) == 1 and r.closed
+                 and case['req'] in ('stream_fault', 'stream_exc', 'gen_late_exc'))
+    if midstream:
+        R.count('midstream_failures_seen')
+    elif r.exc is not None:
         frame = drive.innermost_spyne_frame(r.exc)
         v('escape:%s:%s:%s' % (r.exc_stage, type(r.exc).__name__, frame),
           'exception escaped the WSGI callable (%s): %r' % (r.exc_stage, r.exc))
@@ -169,7 +183,7 @@ def judge(res, case, r, rec, maxlen, declared, blen, full_chunks, R):
                     v('too_long_fault_malformed', 'declared %d > limit %d: 413 but body is not the request-too-long fault: %r' % (declared, maxlen, r.body[:80]))
     # context closed exactly once, not before hand-over
     n_closed = ev.count('ctx_closed')
-    if r.exc is None:
+    if r.exc is None or midstream:
         R.count('ctx_close_seen', n_closed)
         if n_closed != 1:
             v('ctx_closed_count', 'request context closed %d times by the time the response was handed over' % n_closed)
@@ -203,10 +217,17 @@ def run_case(R, case, w, rec, box, body_req, maxlen, cl, abort_after, validate, 
     blen = len(body_req['body'])
     declared = None
     if cl is not None and cl != '':
-        declared = int(cl)
+        try:
+            declared = int(cl) if len(cl) < 100 else None
+        except ValueError:
+            declared = None         # the header is not a length: only the protocol clauses are judged
     R.evaluations += 1
     viol = judge(R, case, r, rec, maxlen, declared, blen, full_chunks, R)
     return r, viol
+
+
+def rewrite_wsdl(ctx):
+    ctx.transport.wsdl = ctx.transport.wsdl.replace(b'http://', b'https://') + b'<!-- served by a proxy -->'
 
 
 def run(spec, R):
@@ -224,7 +245,7 @@ def run(spec, R):
 
     reqs = []
     for rname, meth, args in REQUESTS:
-        if kind == 'httprpc' and rname in ('gen', 'gen0'):
+        if kind == 'httprpc' and rname in ('gen', 'gen0', 'gen_late_exc'):
             continue        # HttpRpc as *output* protocol only serialises primitives
         reqs.append((rname, M.encode_request(kind, meth, args)))
     if kind not in ('httprpc', 'httprpc-json'):
@@ -235,6 +256,9 @@ def run(spec, R):
     # injected faults on the ?wsdl path: the interface document cannot be built / there is none
     reqs.append(('wsdl_build_fails', dict(method='GET', path='/', qs='wsdl', body=b'', content_type=None)))
     reqs.append(('wsdl_disabled', dict(method='GET', path='/', qs='wsdl', body=b'', content_type=None)))
+    # a listener on the documented 'wsdl' event rewrites the document (the reverse-proxy recipe): first and cached answer
+    reqs.append(('wsdl_rewritten', dict(method='GET', path='/', qs='wsdl', body=b'', content_type=None)))
+    reqs.append(('wsdl_rewritten_path', dict(method='GET', path='/svc.wsdl', qs='', body=b'', content_type=None)))
     if tier == 'thorough':
         for i in range(6):
             n = rng.randint(0, 900)
@@ -247,6 +271,10 @@ def run(spec, R):
         grid = limit_grid(blen, tier, rng) if blen else [(2 * 1024 * 1024, 8 * 1024), (64, 16)]
         for maxlen, block in grid:
             w = get_w(maxlen, block)
+            if rname.startswith('wsdl_rewritten'):
+                w = build_wsgi(kind, chunked, maxlen, block, rec, box)
+                w.event_manager.add_listener('wsdl', rewrite_wsdl)
+                R.count('wsdl_listeners_attached')
             if rname in ('wsdl_build_fails', 'wsdl_disabled'):
                 w = build_wsgi(kind, chunked, maxlen, block, rec, box)      # an application of its own: the fault stays with it
                 if rname == 'wsdl_build_fails':
@@ -277,11 +305,14 @@ def run(spec, R):
                                         % (blen, maxlen, r.status, reference[0]), dict(case, abort_after=None, request=breq),
                                         mech='limit_changes_fitting_request')
                 # the stdlib's PEP 3333 checker as a second monitor
-                r2, viol2 = run_case(R, case, w, rec, box, breq, maxlen, cl, None, True, full)
-                vv = [x for x in viol2 if x[0].startswith('escape') and 'AssertionError' in x[0]]
-                for mech, what in vv:
-                    R.violation('wsgiref.validate: ' + what, dict(case, validate=True), mech='wsgiref_validate:' + str(r2.exc)[:60])
-                R.count('wsgiref_validated')
+                # (it also checks the environ, and refuses one whose CONTENT_LENGTH is not a non-negative integer:
+                #  those requests are judged by this file's own oracles only)
+                if clname not in ('not_a_number', 'negative', 'too_many_digits', 'padded', 'fraction'):
+                    r2, viol2 = run_case(R, case, w, rec, box, breq, maxlen, cl, None, True, full)
+                    vv = [x for x in viol2 if x[0].startswith('escape') and 'AssertionError' in x[0]]
+                    for mech, what in vv:
+                        R.violation('wsgiref.validate: ' + what, dict(case, validate=True), mech='wsgiref_validate:' + str(r2.exc)[:60])
+                    R.count('wsgiref_validated')
                 # aborts after k chunks
                 for k in range(0, full + 1):
                     r3, viol3 = run_case(R, case, w, rec, box, breq, maxlen, cl, k, False, full)
@@ -306,6 +337,8 @@ def replay(v, R):
     rec = M.Recorder()
     box = [None]
     w = build_wsgi(c['kind'], c['chunked'], c['max'], c['block'], rec, box)
+    if c['req'].startswith('wsdl_rewritten'):
+        w.event_manager.add_listener('wsdl', rewrite_wsdl)
     breq = c['request']
     body = breq['body']
     if isinstance(body, dict):
